@@ -93,26 +93,26 @@ pub struct Case {
     pub slow: Vec<u8>,
 }
 
-struct BadRender {
-    bytes: Vec<u8>,
+pub struct BadRender {
+    pub bytes: Vec<u8>,
     /// request may legitimately be dispatched (head is fine); body must then not end cleanly
-    head_ok: Option<BadHead>,
+    pub head_ok: Option<BadHead>,
     /// lenient class: a clean, exact parse is also acceptable
-    lenient: bool,
+    pub lenient: bool,
     /// true body bytes that may be delivered before the defect
-    body_prefix: Vec<u8>,
+    pub body_prefix: Vec<u8>,
     /// peer sends EOF right after these bytes (truncation)
-    truncated: bool,
+    pub truncated: bool,
 }
 
-struct BadHead {
-    method: &'static str,
-    target: String,
+pub struct BadHead {
+    pub method: &'static str,
+    pub target: String,
 }
 
-const BAD_TARGET: &str = "/bad-request-target";
+pub const BAD_TARGET: &str = "/bad-request-target";
 
-fn render_bad(b: &Bad, n: usize) -> BadRender {
+pub fn render_bad(b: &Bad, n: usize) -> BadRender {
     let t = format!("{BAD_TARGET}-{n}");
     let head_bad = |s: String| BadRender {
         bytes: s.into_bytes(),
@@ -284,7 +284,7 @@ fn render_bad(b: &Bad, n: usize) -> BadRender {
     }
 }
 
-fn bad_strategy() -> impl Strategy<Value = Bad> {
+pub fn bad_strategy() -> impl Strategy<Value = Bad> {
     prop_oneof![
         Just(Bad::ClAndTe),
         Just(Bad::ClTwiceSame),
